@@ -51,7 +51,8 @@ def kindTag (obs : String) : String :=
   if obs == "panic" then "panic" else if obs == "none" then "none" else "ok"
 
 def inputTag (b : Arr) (n : Nat) : String :=
-  if !wfoB b n then "invalid-input" else if isCanon b then "canonical" else "noncanonical"
+  if !wfoB b n then "invalid-input" else if isCanon b then "canonical"
+  else if isReduced b then "noncanonical" else "nonreduced"
 
 def handle (key : String) (ins obs : List String) : Verdict :=
   match key, ins, obs with
